@@ -139,6 +139,12 @@ M = [
     ("M20r", "C20", ST, "    n = ensure_numpy(n)\n    N = np.sum(n)\n    return np.sum(n * (n - 1)) / (N * (N - 1))\n",
      "    n = ensure_numpy(n)\n    N = np.sum(n)\n    n -= 1\n    return np.sum((n + 1) * n) / (N * (N - 1))\n",
      "pc_n decrements the caller's count array in place (ndarray input only)"),
+    ("M20s", "C20", DI, "    back = pd.read_csv(path, index_col=0)\n    if not return_bins:\n",
+     "    global _BACKGROUND\n    if '_BACKGROUND' not in globals():\n        _BACKGROUND = pd.read_csv(path, index_col=0)\n    back = _BACKGROUND\n    if not return_bins:\n",
+     "load_pcDelta_background caches the packaged table at module level and hands the same object to every caller"),
+    ("M20t", "C20", NN, "        return _make_output(ans, output_type, self.seqs, seqs2)\n\n\ndef _hamming_replacement",
+     "        self._last = ans\n        return _make_output(ans, output_type, self.seqs, seqs2)\n\n\ndef _hamming_replacement",
+     "benign control: SymdelDB.lookup keeps a reference to its last answer on the object (caller-visible object state changes, later results do not)"),
 ]
 
 
